@@ -12,7 +12,7 @@ while args and args[0].startswith("--"):
     elif args[0] == "--tier": tier = args[1]; args = args[2:]
     else: break
 def sh(cmd, cwd=None):
-    p = subprocess.run(cmd, shell=True, cwd=cwd, capture_output=True, text=True)
+    p = subprocess.run(cmd, shell=True, cwd=cwd, capture_output=True, text=True, env=dict(os.environ, VERIF_NO_EVIDENCE="1"))
     return p.returncode, p.stdout + p.stderr
 rc, out = sh("git status --porcelain", "/repo")
 if out.strip():
